@@ -30,17 +30,24 @@ def _cfg_ctx(cfg: Dict[str, Any], info: Dict[str, Any], family: str) -> Dict[str
 
 
 def fam_traffic(w: World) -> None:
+    """One to three documents, one after another, to one long-lived dispatcher."""
     ch = w.ch
-    info = S.gen_document(ch)
-    n = len(info['doc']) if isinstance(info['doc'], list) else 1
+    n_deliveries = 1 + ch.draw(3, 'deliveries')
+    infos = [S.gen_document(ch, tok_prefix=f'd{d}_' if d else '') for d in range(n_deliveries)]
+    n = max((len(i['doc']) if isinstance(i['doc'], list) else 1) for i in infos)
     cfg = S.draw_config(ch, n)
-    S.plan_pauses(w, cfg, n + 1)
-    w.scenario = {'cfg': cfg, 'text': info['text'], 'kinds': info['kinds']}
-    w.nontrivial = info['shape'] == 'batch' or bool(info['kinds'] and info['kinds'][0] not in ('ok',))
-    if info['shape'] == 'batch' and info['kinds'] and all(k.endswith('.n') for k in info['kinds']):
-        w.probe('all_notification_batch')
+    for d in range(n_deliveries):
+        S.plan_pauses(w, cfg, n + 1, tok_prefix=f'd{d}_' if d else '')
+    w.scenario = {'cfg': cfg, 'texts': [i['text'] for i in infos], 'kinds': [i['kinds'] for i in infos]}
+    info = infos[0]
+    w.nontrivial = n_deliveries > 1 or info['shape'] == 'batch' or bool(info['kinds'] and info['kinds'][0] not in ('ok',))
     sut = S.ServerUnderTest(w, cfg)
-    S.judge_delivery(w, PROP, sut, info['text'], CHECKS, _cfg_ctx(cfg, info, 'traffic'))
+    for info in infos:
+        if info['shape'] == 'batch' and info['kinds'] and all(k.endswith('.n') for k in info['kinds']):
+            w.probe('all_notification_batch')
+        S.judge_delivery(w, PROP, sut, info['text'], CHECKS, _cfg_ctx(cfg, info, 'traffic'))
+        if w.violations:
+            return
 
 
 def fam_corrupted(w: World) -> None:
